@@ -172,6 +172,22 @@ def shape_refnew(fields):
                  all(k == "R" for k in kinds), guard=guard_paths("g", n), rguard=guard_paths("g", n))
 
 
+def shape_empty(coll, container):
+    """collections over no locks at all (size 0)"""
+    data = "Vec::<M>::new()" if container == "vec" else "{ let e: [M; 0] = []; e }"
+    lty = "Vec<M>" if container == "vec" else "[M; 0]"
+    tag = "v" if container == "vec" else "a"
+    if coll == "boxed":
+        build, ctype, nm = ["let coll = BoxedLockCollection::new(%s);" % data], "BoxedLockCollection::<%s>" % lty, "bxe"
+    elif coll == "retry":
+        build, ctype, nm = ["let coll = RetryingLockCollection::new(%s);" % data], "RetryingLockCollection::<%s>" % lty, "rte"
+    elif coll == "owned":
+        build, ctype, nm = ["let coll = OwnedLockCollection::new(%s);" % data], "OwnedLockCollection::<%s>" % lty, "owe"
+    else:
+        build, ctype, nm = ["let tup = %s;" % data, "let coll = RefLockCollection::new(&tup);"], "RefLockCollection::<%s>" % lty, "rfe"
+    return Shape("%s_%s0" % (nm, tag), coll, [], build, ctype, [], False, guard=[])
+
+
 def shape_array(coll, n, container="array"):
     """boxed / retry collection over an array or Vec of mutex references"""
     st, names = picks("M" * n)
@@ -266,6 +282,10 @@ def all_shapes(tier):
     for coll in ("owned", "boxed", "retry", "ref"):
         for kinds in (("MR", "RR") if tier == "quick" else ("M", "MR", "RR", "MRM", "RRR", "MRMR")):
             sh.append(shape_owned(coll, kinds))
+    for coll in ("boxed", "retry", "owned", "ref"):
+        sh.append(shape_empty(coll, "vec"))
+        if tier != "quick":
+            sh.append(shape_empty(coll, "array"))
     sh.append(shape_refnew(("m2", "r0", "m0")))
     sh.append(shape_refnew(("r2", "r0")))
     sh.append(shape_pois("M"))
@@ -325,6 +345,8 @@ def held_masks(shape, mode):
 
 def oracle_try(shape, mode):
     ids = shape.ids()
+    if not ids:
+        return "true"
     if mode == "w":
         return "(" + " && ".join("w().is_free(%s)" % i for i in ids) + ")"
     parts = []
